@@ -126,7 +126,7 @@ Definition outcome_c (grace : bool) (nr nc : nat) (s : cstate) : outcome :=
       (map (fun k => match k with KRet e => Some e | _ => None end) (closes s))
       (map (fun a => match a with ACAccepted _ => true | _ => false end) (addcl s))
       (map (fun k => match k with
-                     | CARefused => false
+                     | CARefused | CAPending _ => false
                      | CAPassed a => match nth_error (r_adds (inner s)) a with
                                      | Some (AAccepted _) => true
                                      | _ => false
